@@ -21,11 +21,19 @@ func init() { cmds["parse"] = cmdParse }
 var symBytes = map[string]string{"<0>": "\x00", "<L>": "é", "<N>": "٣", "<S>": "☃", "<B>": "\xff"}
 
 // other representatives of the symbol classes: the verdict must not depend on which member of a class is used
-var symAlt = []map[string]string{
-	{"<L>": "ǅ", "<N>": "½", "<S>": "\u00a0"},
-	{"<L>": "ª", "<N>": "Ⅷ", "<S>": "\u2028"},
-	{"<L>": "日", "<N>": "٣", "<S>": "\u3000"},
-}
+var symAlt = func() []map[string]string {
+	alts := []map[string]string{
+		{"<L>": "ǅ", "<N>": "½", "<S>": "\u00a0"},
+		{"<L>": "ª", "<N>": "Ⅷ", "<S>": "\u2028"},
+		{"<L>": "日", "<N>": "٣", "<S>": "\u3000"},
+		{"<L>": "だ", "<N>": "²", "<S>": "™"},
+	}
+	// letters (and symbols) whose code point has the low byte of a character the grammar gives a meaning to
+	for _, r := range "ТѠШЩЮЯћѝѻѽЬнСѾџРЉЊЍ" {
+		alts = append(alts, map[string]string{"<L>": string(r), "<S>": string(rune(0x2000 + int(r)&0xff))})
+	}
+	return alts
+}()
 
 func bytesAlt(syms []string, alt map[string]string) []byte {
 	var b bytes.Buffer
